@@ -201,7 +201,13 @@ def _check_case(case):
                     p = x['pos']
                     have4.append((k['v'][0], k['v'][1], p[0], p[1] if len(p) > 1 and p[1] != '' else None,
                                   x['v'][2] if len(x['v']) > 2 else None, x['v'][3] if len(x['v']) > 3 else None))
+            n4_ = {}
             for e in es:
+                if e['level'] == 'ele' and e['code'] in k4codes and not is999:
+                    # an AK3 of the 997 takes 99 AK4 at most: what comes after the 99th of a segment cannot be itemised
+                    n4_[e['pos']] = n4_.get(e['pos'], 0) + 1
+                    if n4_[e['pos']] > 99:
+                        continue
                 if e['level'] == 'seg' and e['code'] in k3codes:
                     if (e['seg_id'], str(e['pos']), e['code']) not in have3:
                         out.fail('R6:seg-error-not-itemised:%s' % e['code'], 'set #%d: %s pos %s code %s not among %s' % (si, e['seg_id'], e['pos'], e['code'], sorted(have3)[:6]))
